@@ -71,6 +71,7 @@ type Contract struct {
 	AcqAssumes   []*Clause // assumed at every lock acquisition of the function (stated environment assumption)
 	PureDef      *Clause   // explicit definition of a pure function
 	Trusted      bool
+	Assumed      []*Clause // clauses assumed at call sites and not verified against the body (listed in the evidence)
 	NoInline     bool
 	Refines      string
 	NoSafety     bool
@@ -95,7 +96,7 @@ type ChanSpec struct {
 }
 
 var reFuncHdr = regexp.MustCompile(`^func\s*(?:\(\s*(\w+)\s+\*?([\w.]+)\s*\)\s*)?([\w#.]+)\s*(?:\(([^)]*)\))?\s*(.*)$`)
-var reClause = regexp.MustCompile(`^(requires|ensures|effect|assume_acq|assume|invariant|decreases|assert|iter_ensures)(?:\[([\w@ ,.+-]+)\])?\s+(.*)$`)
+var reClause = regexp.MustCompile(`^(requires|ensures|effect|assumed|assume_acq|assume|invariant|decreases|assert|iter_ensures)(?:\[([\w@ ,.+-]+)\])?\s+(.*)$`)
 var reLoop = regexp.MustCompile(`^loop\s+(\w+)\s*:\s*(.*)$`)
 
 func (p *Prog) loadContracts(files ...string) error {
@@ -555,6 +556,10 @@ func (p *Prog) loadContractFile(path string) error {
 				cur.Ensures = append(cur.Ensures, c)
 			case "effect":
 				cur.Effects = append(cur.Effects, c)
+			case "assumed":
+				// a clause callers rely on that is not verified against the body (reported as an assumption, per clause)
+				cur.Effects = append(cur.Effects, c)
+				cur.Assumed = append(cur.Assumed, c)
 			case "assume_acq":
 				cur.AcqAssumes = append(cur.AcqAssumes, c)
 			default:
